@@ -22,7 +22,7 @@ type Message struct {
 	subject string
 	source  []byte
 	seen    atomic.Bool
-	el      *list.Element // This message in Store.messages
+	el      *list.Element // This message in the store size account; guarded by Store.sizeMu.
 }
 
 var _ storage.Message = &Message{}
